@@ -329,6 +329,47 @@ pub fn job_c04(out_dir: &str, tier: &str, seed: u64) {
         let key = format!("{}|{}|{}", rec["doc"], rec["sels"], rec["obs"]);
         sh.push(&rec, &src, Some(&key), true);
     }
+    // replay of the design-level model (spec/SelectorVM.tla, MC_SelVM): every (document, selector set) of the bounded
+    // instance, rendered and run on the real code
+    let path = std::env::var("VERIF_REPLAY_FILE").unwrap_or_default();
+    let text = std::fs::read_to_string(&path).unwrap_or_default();
+    let lines: Vec<&str> = text.lines().filter(|l| l.contains("\"vdoc\"")).collect();
+    let stride = if quick { (lines.len() / 5000).max(1) } else { 1 };
+    let mut replayed = 0usize;
+    for (li, line) in lines.iter().enumerate() {
+        if li % stride != 0 { continue; }
+        let v: Value = match serde_json::from_str(line) { Ok(v) => v, Err(_) => continue };
+        let tags: Vec<Value> = v["vdoc"].as_array().cloned().unwrap_or_default();
+        // foreign tags need their context to be rendered: only the HTML-namespace documents are replayed
+        if tags.is_empty() || tags.iter().any(|t| t["k"] == "st" && t["ns"] != "html") { continue; }
+        let bytes = |x: &Value| -> Vec<u8> { x.as_array().map(|a| a.iter().map(|c| c.as_u64().unwrap_or(63) as u8).collect()).unwrap_or_default() };
+        let mut html: Vec<u8> = Vec::new(); let mut offs: Vec<usize> = Vec::new();
+        for t in &tags {
+            offs.push(html.len());
+            if t["k"] == "st" {
+                html.push(b'<'); html.extend(bytes(&t["n"]));
+                for a in t["attrs"].as_array().cloned().unwrap_or_default() { html.push(b' '); html.extend(bytes(&a[0])); html.extend_from_slice(b"=\""); html.extend(bytes(&a[1])); html.push(b'"'); }
+                html.extend_from_slice(if t["sc"] == true { b"/>" } else { b">" });
+            } else { html.extend_from_slice(b"</"); html.extend(bytes(&t["n"])); html.push(b'>'); }
+        }
+        let sels: Vec<Value> = v["sels"].as_array().cloned().unwrap_or_default();
+        let css: Vec<String> = sels.iter().map(render_selector).collect();
+        let cfg_all = json!({"elem": css.iter().map(|c| json!({"sel": c, "element": []})).collect::<Vec<_>>(), "strict": false});
+        let tl = driver::run(&cfg_all, &html, &[], &RunOpts::default());
+        let failed: Option<String> = if tl.iter().any(|e| e["e"] == "new") { Some("selector refused".into()) }
+            else { tl.iter().filter(|e| e["e"] == "ret" && e["res"] != "ok").map(|e| e["res"].as_str().unwrap_or("?").to_string()).next() };
+        let mut obs = vec![json!({"variant":"all-single","only":0,"inv":invocations(&tl, &offs)})];
+        if let Some(why) = failed { obs[0]["failed"] = json!(why); }
+        let bytewise: Vec<usize> = (1..html.len()).collect();
+        let inv2 = invocations(&driver::run(&cfg_all, &html, &bytewise, &RunOpts::default()), &offs);
+        if Value::Array(inv2.clone()) != obs[0]["inv"] { obs.push(json!({"variant":"all-bytewise","only":0,"inv":inv2})); }
+        n += 1; replayed += 1;
+        let rec = json!({"id": format!("c04-{n}"), "doc": tags, "sels": sels, "obs": obs});
+        let src = json!({"id": rec["id"], "css": css, "html": String::from_utf8_lossy(&html), "input": html, "sels": rec["sels"], "doc": rec["doc"], "cuts": [], "replayed_from": "MC_SelVM"});
+        let key = format!("{}|{}|{}", rec["doc"], rec["sels"], rec["obs"]);
+        sh.push(&rec, &src, Some(&key), true);
+    }
+    eprintln!("c04: replayed {replayed} model cases");
     sh.finish(json!({"rule": "seeded (selector set, document) pairs: 1-3 selectors from the supported grammar (type, *, #id, .class, [attr] with the six operators and i/s flags incl. empty operands, :nth-child / :nth-of-type / :first-*, :not() with 1-2 compound arguments and nesting, child / descendant combinators up to 3 compounds, 2-selector lists) x documents of <= 9 tags over 12 names (voids, > 12 characters, hyphenated, svg island, upper case) with 0-2 attributes (duplicates, case variants), self-closing syntax, mis-nesting and stray end tags; observed: all selectors together (single write, byte-wise, random cuts, with a text observer) and each selector alone.",
         "unparsable_selector_sets_skipped": unparsable}));
 }
